@@ -75,6 +75,14 @@ def view_cases(rng):
         'map_above_copy': lambda: mk().map(lambda x: x).copy(freeze=True),
         'lazy_apply': lambda: mk().apply(lambda d: d, lazy=True),
     }
+    if keyed and w == 1:
+        # the keyed views of the single-thread path (pool prefetch has no keys)
+        views['items'] = lambda: (kv[1] for kv in mk().items())
+        views['copy_items'] = lambda: (kv[1] for kv in mk().copy(freeze=True).items())
+    if keyed:
+        csel = caught if len(caught) > 1 else caught[0]
+        views['catch_items'] = lambda: (kv[1] for kv in lazy_dataset.new(src).map(f).catch(csel).items())
+        views['catch_prefetch_items'] = lambda: (kv[1] for kv in lazy_dataset.new(src).map(f).catch(csel).prefetch(1, b).items())
     with warnings.catch_warnings():
         warnings.simplefilter('ignore')
         for name, mkv in views.items():
